@@ -1,0 +1,35 @@
+//go:build verif
+
+package main
+
+import (
+	"fmt"
+	"os"
+)
+
+var verifTrace = os.Getenv("VERIF_FC_TRACE")
+var verifAssert = os.Getenv("VERIF_FC_ASSERT") != ""
+var verifFileSeq = 0
+
+// verifRootBoundary is called by ParseList before every top-level statement and once after the last.
+// VERIF_FC_TRACE=<file> appends one record per boundary; VERIF_FC_ASSERT=1 turns the
+// quiescent-point invariants (one scope, offside stack [0], not inside a type definition)
+// into exit status 97.
+func verifRootBoundary(ps ParseState, idx int, atEnd bool) {
+	if idx == 0 && !atEnd {
+		verifFileSeq++
+	}
+	depth := SCLen(ps.scope)
+	tt := fmt.Sprintf("%T", ps.tkz.current.ttype)
+	if verifTrace != "" {
+		if fh, err := os.OpenFile(verifTrace, os.O_APPEND|os.O_CREATE|os.O_WRONLY, 0644); err == nil {
+			fmt.Fprintf(fh, "{\"file\":%d,\"idx\":%d,\"end\":%v,\"tok\":%q,\"scope\":%d,\"offside\":%v,\"insideTD\":%v,\"tv\":%d,\"uid\":%d}\n",
+				verifFileSeq, idx, atEnd, tt, depth, fmt.Sprint(ps.offsideCol), ps.tdctx.insideTD, ps.tvc.tva.seqId, uniqueId)
+			fh.Close()
+		}
+	}
+	if verifAssert && (depth != 1 || len(ps.offsideCol) != 1 || ps.offsideCol[0] != 0 || ps.tdctx.insideTD) {
+		fmt.Printf("VERIF-INVARIANT root boundary: scope=%d offside=%v insideTD=%v\n", depth, ps.offsideCol, ps.tdctx.insideTD)
+		os.Exit(97)
+	}
+}
